@@ -2,9 +2,7 @@ use anyhow::Result;
 
 use crate::parser::{Node, Parser};
 
-use super::{
-    get_net_dependencies, CompilationState, Compile, Declaration, Dependencies, Dependency,
-};
+use super::{CompilationState, Compile, Declaration, Dependencies, Dependency};
 
 #[derive(Debug)]
 pub struct Block(Vec<Declaration>);
@@ -18,7 +16,38 @@ impl Block {
     /// `else`, `while`, `from`). Such a block is a scope but not a capture boundary: the depth of
     /// a dependency counts the functions it crosses, so it is not raised here.
     pub fn net_dependencies_within_function(&self) -> Vec<Dependency> {
-        get_net_dependencies(self, false)
+        self.net_dependencies_in_order(false)
+    }
+
+    /// What the statements of this block need from outside of it. A declaration supplies the
+    /// statements that follow it, not the ones before: in `h = fn() -> int { return x }` / `x = 3`
+    /// the function reads the `x` of an enclosing function, which therefore is a dependency.
+    fn net_dependencies_in_order(&self, is_capture_boundary: bool) -> Vec<Dependency> {
+        let mut supplied: Vec<Dependency> = vec![];
+        let mut result: Vec<Dependency> = vec![];
+
+        for statement in &self.0 {
+            'dependency_loop: for mut dependency in statement.net_dependencies() {
+                for supply in &supplied {
+                    if supply
+                        .eq_allow_callbacks(&dependency)
+                        .expect("idents do not have types")
+                    {
+                        continue 'dependency_loop;
+                    }
+                }
+
+                if is_capture_boundary {
+                    dependency.increment_cycle();
+                }
+
+                result.push(dependency);
+            }
+
+            supplied.append(&mut statement.supplies());
+        }
+
+        result
     }
 }
 
@@ -34,7 +63,7 @@ impl Dependencies for Block {
     }
 
     fn net_dependencies(&self) -> Vec<Dependency> {
-        get_net_dependencies(self, true)
+        self.net_dependencies_in_order(true)
     }
 }
 
